@@ -57,6 +57,66 @@ def fields_of(repo, c):
 # --------------------------------------------------------------------------- P-PROPAGATE / P-DECL
 
 
+def propagate_cases(repo, res, m, base, sa):
+    """BaseParam.__setattr__, evaluated on a tree of parameter groups
+
+        top {a, b} -> left {a} -> leaf {a, c}
+                   -> right {b} -> deep {a}          (and a group that is not initialised yet, with a child)
+
+    for a name declared somewhere and a name declared nowhere: afterwards the value is stored in exactly the groups
+    that declare the name — the assigned group itself and every group below an initialised group —, unmodified, and
+    nowhere else; below a group that is not initialised nothing is forwarded."""
+    from ..strdom import NONE, Ev, ListV, Obj, Str, Sym, Undecided, _Raise, show
+
+    qn = "BaseParam.__setattr__"
+
+    def world():
+        declared = {}
+
+        def group(label, names, initialised=True, **children):
+            o = Obj(base, {}, label=label)
+            o.fields["_BaseParam__initialized"] = initialised
+            o.fields["__initialized"] = initialised
+            for k, v in children.items():
+                o.fields[k] = v
+            o.fields["plain"] = 7  # a value that is no group
+            declared[id(o)] = set(names) | set(children)
+            return o
+
+        deep = group("deep", {"a"})
+        leaf = group("leaf", {"a", "c"})
+        left = group("left", {"a"}, child=leaf)
+        right = group("right", {"b"}, child=deep)
+        orphan_child = group("below the uninitialised group", {"a"})
+        raw = group("uninitialised group", {"a"}, initialised=False, child=orphan_child)
+        top = group("top", {"a", "b"}, left=left, right=right, raw=raw)
+        return top, [top, left, leaf, right, deep, raw, orphan_child], declared
+
+    for name in ("a", "b", "c", "zz"):
+        top, groups, declared = world()
+        ev = Ev(repo)
+        ev.pure_modules = {"math"}
+        ev.model_calls["dataclasses.fields"] = ev.model_calls["fields"] = lambda a, k, declared=declared: ListV([Obj(None, {"name": Str.lit(n)}, closed=True, label="field %s" % n) for n in sorted(declared.get(id(a[0]), ()))])
+        value = Sym("value", "num")
+        bad = []
+        try:
+            ev.call_fn(ev.bind(sa, base, top), [Str.lit(name), value], {}, sa)
+            reach = {id(g) for g in groups[:5]} | {id(groups[5])}  # everything but the group below the uninitialised one
+            for g in groups:
+                got = g.fields.get(name, None)
+                want = id(g) in reach and name in declared[id(g)]
+                if want and got is not value:
+                    bad.append("%s declares %s and %s" % (g.label, name, "did not receive it" if got is None else "received %s" % show(got)))
+                elif not want and got is not None:
+                    bad.append("%s got %s = %s although it %s" % (g.label, name, show(got), "does not declare it" if name not in declared[id(g)] else "lies below a group that is not initialised"))
+        except _Raise as x:
+            bad.append("raises %s" % x.what)
+        except Undecided as x:
+            raise AnalysisError("%s [%s]: %s" % (qn, name, x))
+        res.check("P-PROPAGATE", "%s [name %r]: stored, unmodified, in exactly the groups of the tree that declare it" % (qn, name), not bad, m, sa, "%s [name %r]: %s" % (qn, name, "; ".join(bad[:3])), "a parameter set on a group does not reach every nested group that declares it (or reaches a group that does not, or arrives modified): a time window set at the top level does not reach every drawn object", qualname=qn)
+
+
+
 def propagate(repo, res):
     m, base, classes = param_classes(repo)
     sa = base.methods.get("__setattr__")
@@ -67,52 +127,7 @@ def propagate(repo, res):
     ps = [a.arg for a in sa.args.args]
     if len(ps) != 3:
         raise AnalysisError("BaseParam.__setattr__ signature changed")
-    _self, pname, pval = ps
-    # own store
-    own = [c for c in walk_no_nested(sa) if isinstance(c, ast.Call) and isinstance(c.func, ast.Attribute) and c.func.attr == "__setattr__" and isinstance(c.func.value, ast.Call) and call_name(c.func.value) in ("super", "object")]
-    own += [c for c in walk_no_nested(sa) if isinstance(c, ast.Call) and call_name(c) == "object.__setattr__"]
-    res.check("P-PROPAGATE", "__setattr__ stores the field on the object itself", len(own) == 1 and [norm(a) for a in own[0].args][-2:] == [pname, pval], m, sa, "own store %s" % [norm(c) for c in own], "a parameter set on a group is not stored on that group", qualname="BaseParam.__setattr__")
-    from ..dataflow import ReachingDefs as _RD
-    from ..flowtools import canon_guards
-
-    srd = _RD(sa)
-    for c in own:
-        guards = canon_guards(m, c, sa, srd, [pname, pval])
-        ok = len(guards) <= 1 and all(pol and isinstance(n, ast.Compare) and isinstance(n.ops[0], ast.In) and norm(n.left) == pname and "fields" in t for t, pol, n in guards)
-        res.check("P-PROPAGATE", "own store is conditional only on the field being declared", ok, m, c, "super().__setattr__ under %s" % [t for t, _p, _n in guards], "declared fields are not always stored", qualname="BaseParam.__setattr__")
-    # forwarding loop: in __setattr__ itself or in a same-class helper that receives (name, value) unchanged
-    regions = [(sa, pname, pval, [])]
-    for c in walk_no_nested(sa):
-        if isinstance(c, ast.Call) and isinstance(c.func, ast.Attribute) and isinstance(c.func.value, ast.Name) and c.func.value.id == "self" and c.func.attr in base.methods and c.func.attr != "__setattr__":
-            h = base.methods[c.func.attr]
-            hp = [a.arg for a in h.args.args][1:]
-            if [norm(a) for a in c.args] == [pname, pval] and len(hp) == 2 and not c.keywords:
-                regions.append((h, hp[0], hp[1], canon_guards(m, c, sa, srd, [pname, pval])))
-    fw = []
-    for rf, rn, rv, outer in regions:
-        for lp in [n for n in walk_no_nested(rf) if isinstance(n, ast.For)]:
-            it = norm(lp.iter)
-            if it not in ("self.__dict__.items()", "self.__dict__.values()", "vars(self).items()", "vars(self).values()"):
-                continue
-            tv = lp.target.elts[-1] if isinstance(lp.target, ast.Tuple) else lp.target
-            for c in ast.walk(lp):
-                if isinstance(c, ast.Call) and ((isinstance(c.func, ast.Attribute) and c.func.attr == "__setattr__" and norm(c.func.value) == norm(tv) and [norm(a) for a in c.args] == [rn, rv]) or (call_name(c) == "setattr" and [norm(a) for a in c.args] == [norm(tv), rn, rv])):
-                    fw.append((lp, tv, c, rf, outer))
-    res.check("P-PROPAGATE", "__setattr__ forwards (name, value) to the values of self.__dict__", len(fw) == 1, m, sa, "%d forwarding calls over self.__dict__" % len(fw), "a parameter set on a group does not reach its nested groups (or reaches them modified)", qualname="BaseParam.__setattr__")
-    for lp, tv, c, rf, outer in fw:
-        guards = [(t, pol, n) for t, pol, n in outer] + [(norm(t), pol, t) for t, pol in dominating_guards(m, c, stop=rf)]
-        kinds = []
-        for txt, pol, t in guards:
-            if pol and isinstance(t, ast.Call) and call_name(t) == "isinstance" and norm(t.args[0]) == norm(tv) and "BaseParam" in norm(t.args[1]):
-                kinds.append("isinstance")
-            elif pol and isinstance(t, ast.Attribute) and norm(t.value) == "self" and "initialized" in t.attr:
-                kinds.append("initialized")
-            else:
-                kinds.append("other:" + txt)
-        ok = sorted(kinds) == ["initialized", "isinstance"]
-        res.check("P-PROPAGATE", "forwarding happens for every nested BaseParam whenever the object is initialised", ok, m, c, "forward under %s" % sorted(kinds), "forwarding is restricted (e.g. to names the outer group declares, or to some nested groups): a time window set at the top level does not reach every drawn object", qualname="BaseParam.__setattr__")
-        stops = [n for n in ast.walk(lp) if isinstance(n, (ast.Break, ast.Return))]
-        res.check("P-PROPAGATE", "forwarding loop visits all nested groups", not stops, m, lp, "loop with %d early exits" % len(stops), "only the first nested group receives the value", qualname="BaseParam.__setattr__")
+    propagate_cases(repo, res, m, base, sa)
     # __post_init__
     public = [a for a in base.annotations if not a.startswith("_")]
     stmts = pi.body
